@@ -183,6 +183,22 @@ def run(rep, tier, seed, keep=False):
         for _ in range(3000 if quick else 100000):
             v = ''.join(rng.choice(pool) for _ in range(rng.randint(0, 8)))
             quote_event(rng.choice(['single', 'double', 'verbatim']), v)
+        # the module-level convenience entry yaql.eval(text) keeps parsed texts: literals that differ only in their blanks are
+        # different values all the same (each value is evaluated after its look-alikes)
+        import yaql as _yaql
+
+        def eval_event(style, v):
+            sp = py_quote(v, style)
+            try:
+                got = _yaql.eval(Q[style] + sp + Q[style])
+                got = ('value', got) if isinstance(got, str) else ('other', type(got).__name__)
+            except Exception as e:  # noqa
+                got = ('error', type(e).__name__)
+            add({'act': 'quote', 'style': style, 'v': cps(v), 'spelling': cps(sp), 'back_kind': got[0],
+                 'back': cps(got[1]) if got[0] == 'value' else []}, 'yaql.eval of %s%s%s (value %r) gives %r' % (Q[style], sp, Q[style], v, got))
+        for style in ('single', 'double', 'verbatim'):
+            for v in ['a b', 'a  b', 'a   b', 'a\tb', 'a \tb', 'a\nb', 'a \n b', ' a b', 'a b ', 'a\u00a0b', 'a\u2003b', 'a b', '  ', ' ', '\t']:
+                eval_event(style, v)
         # two literals in one expression (a token must end where the model says it ends)
         def spellable(v, style):
             if style != 'verbatim':
